@@ -58,6 +58,9 @@ ASSUMPTIONS = [
     "runtime behaviour; the model's `step` (mutator applied iff the flag is not rdonly) is a stand-in for it, "
     "supported by running every discovered mutating call of every entity kind against read-only sessions",
     "the content of a file is modelled as an association list path -> value; mutators are arbitrary functions on it",
+    "what a path can hold is modelled as: nothing, an HDF5 file, a regular file libhdf5 cannot open (opaque bytes; "
+    "`h5fOpen`: OSError, except that an EMPTY file opened with write access is initialised by libhdf5), a directory "
+    "(h5f.open / h5f.create: OSError); file permissions are not modelled (the checks run as root)",
     "uuid.UUID / int(s, 16) are modelled for ASCII strings (non-ASCII digits and blanks are outside the model and "
     "the generators); uuid4() is assumed to return a string uuid.UUID accepts",
     "version attributes are integer vectors (float or nested version attributes are outside the model)",
@@ -65,7 +68,9 @@ ASSUMPTIONS = [
 ]
 TRUSTED_EXTRA = ["harness/extract/fileconst.py renders FILE_FORMAT, HDF_FF_VERSION, the FileMode letters, the "
                  "map_file_mode chain, the can_write comparison, the can_read condition, the _check_header mode "
-                 "dispatch and the id threshold"]
+                 "dispatch and the id threshold, the _create_header call order, and the shape of File.__init__ / "
+                 "File.open (default mode, guards, create-or-open condition, rebound mode, h5f.create / h5f.open with "
+                 "flags=map_file_mode(mode) outside any try, ordered tail)"]
 
 VALID_ID = "017d7764-173b-4716-a6c2-45f6d37ddb52"
 T_BUILD = 1500000000       # controlled clock while files are generated
@@ -2155,18 +2160,25 @@ def replay_failure(ctx, fj):
 READY = True
 MANIFEST = {
     "level_text": "Kernel-checked theorems over a Lean model of nixio/file.py whose constants, map_file_mode chain, "
-                  "can_write comparison, can_read condition, _check_header dispatch and id threshold are regenerated "
-                  "from the source on every run: for ALL integer version triples, format tags, id strings and modes the "
-                  "open outcome is the table of the property (write iff version = library's; read iff same major and "
-                  "minor not newer; id required from 1.2.0 on; wrong tag InvalidFile; wrong length RuntimeError), a "
-                  "refused or read-only open leaves the file unchanged, overwrite yields an empty file with a fresh "
-                  "header, read-write keeps header and content and creates only a missing file, and a read-only "
-                  "session is a frame for every list of calls (mutators = arbitrary functions) and every history of "
-                  "read-only sessions (induction).",
+                  "can_write comparison, can_read condition, _check_header dispatch, id threshold, _create_header call "
+                  "order and the shape of File.__init__ / File.open (default mode, guards, create-or-open condition, "
+                  "rebound mode, ordered tail) are regenerated from the source on every run: for ALL integer version "
+                  "triples, format tags, id strings and mode strings the open outcome is the table of the property "
+                  "(write iff version = library's; read iff same major and minor not newer; id required from 1.2.0 "
+                  "on; wrong tag InvalidFile; wrong length RuntimeError; the default mode is read-write); for a path in "
+                  "ANY condition (missing, HDF5 file, file libhdf5 cannot open incl. empty, directory) a refused open "
+                  "changes nothing, only Overwrite replaces what exists, read-only never changes anything, the state "
+                  "of a path changes only by Overwrite / creation of a missing file / completion of an accepted file; "
+                  "overwrite yields an empty file with the fresh header _create_header writes, which reopens in both "
+                  "modes; what may be written may be read; a read-only session is a frame for every list of calls "
+                  "(mutators = arbitrary functions) and, by induction, for every history of sessions on any path.",
     "level_note": "Trusted: Lean kernel; axioms propext/Classical.choice/Quot.sound; the file.py translator; the "
-                  "stand-in for libhdf5's ACC_RDONLY refusal (nixio has no guard of its own) - tied to the code by "
-                  "running every introspected mutating call of every entity kind in read-only sessions on generated "
-                  "files, with sha256 of the bytes before/after; uuid.UUID acceptance modelled for ASCII.",
-    "technique": "Lean 4 proof (case analysis + omega over regenerated decision tables; induction over call lists and "
-                 "session histories) with differential correspondence on real HDF5 files crafted with h5py",
+                  "stand-ins for libhdf5 (ACC_RDONLY refusal - nixio has no guard of its own; which paths h5f.open / "
+                  "h5f.create reject) - tied to the code by running every introspected mutating call of every entity "
+                  "kind (146 members) in read-only sessions on generated files with sha256 of the bytes before/after, "
+                  "and by opening existing paths in 14 conditions x 6 mode spellings; uuid.UUID acceptance modelled "
+                  "for ASCII; file permissions not modelled.",
+    "technique": "Lean 4 proof (case analysis + omega over regenerated decision tables and the regenerated shape of "
+                 "File.__init__; induction over call lists and session histories) with differential correspondence "
+                 "on real HDF5 files crafted with h5py and on non-HDF5 paths",
 }
